@@ -56,6 +56,9 @@ type GateLimiter struct {
 	// AfterInnerRelease is called in the completing goroutine after the inner listener completed and before
 	// control returns to the wrapper (which then broadcasts / unblocks).
 	AfterInnerRelease func(outcome string)
+	// BeforeInnerRelease is called in the completing goroutine before the inner listener is completed: a delegate
+	// whose listener is slow to give the unit back.
+	BeforeInnerRelease func(outcome string)
 
 	mu        sync.Mutex
 	attempts  map[int]int
@@ -109,6 +112,9 @@ func (l *GateListener) complete(outcome int, name string, f func()) {
 	} else {
 		l.g.Completed.Add(1)
 		l.g.byOutcome[outcome].Add(1)
+	}
+	if h := l.g.BeforeInnerRelease; h != nil {
+		h(name)
 	}
 	f()
 	if h := l.g.AfterInnerRelease; h != nil {
